@@ -125,7 +125,15 @@ var cur *Exec
 
 // watchdogTimeout bounds one execution in real time; it only fires when a managed
 // thread blocks on something vrt does not model. It is a harness error, never a verdict.
-var watchdogTimeout = 20 * time.Second
+var watchdogTimeout = 120 * time.Second
+
+// After the watchdog has fired once in this process the cause (something the
+// runtime does not model) will most likely strike again: later executions get
+// a short leash so that a broken build fails fast instead of after hours. The
+// long first timeout keeps a machine that is merely overloaded from being
+// mistaken for a blocked thread.
+var watchdogAfterFirst = 10 * time.Second
+var watchdogFired bool
 
 // Active reports whether a controlled execution is in progress.
 func Active() bool { return cur != nil }
@@ -163,13 +171,18 @@ func Run(opt Options, body func(), atQuiescence func(e *Exec)) *Result {
 	t0.started = true
 	go e.threadMain(t0, body)
 
-	watchdog := time.NewTimer(watchdogTimeout)
+	limit := watchdogTimeout
+	if watchdogFired {
+		limit = watchdogAfterFirst
+	}
+	watchdog := time.NewTimer(limit)
 	defer watchdog.Stop()
 	deadline := false
 	select {
 	case <-e.quiesced:
 	case <-watchdog.C:
 		deadline = true
+		watchdogFired = true
 	}
 	res := &Result{}
 	if !deadline {
